@@ -257,8 +257,7 @@ def rule_same_context(ctx):
                           "section filled from %s, address from %s" % (show(src)[:100], show(ipc)[:100]))
 
 
-def rule_branch_select(ctx):
-    R = "C05/branch-select"
+def rule_branch_select(ctx, R="C05/branch-select"):
     b = ctx.body(R, "linux::sections::thread_list_stream::write")
     if b is None:
         return
